@@ -259,9 +259,10 @@ theorem trigger_nodes_spec (dyn : Q → Bool) (sub : Path → Str → Str) (root
   simp only [trigFacts, gen]
   exact trigs_eq dyn sub _ _ els [root]
 
-/-- a bind carries `calculate` iff the question has a calculation and no trigger -/
+/-- one `<bind>` per question that has a bind dict; it carries `calculate` iff the question has a calculation and no trigger -/
 theorem calculate_omitted_with_trigger (dyn : Q → Bool) (sub : Path → Str → Str) (root : Str) (els : List El) :
-    (gen dyn sub root els).binds = (qwp [root] els).map (expBind sub) := by
+    (gen dyn sub root els).binds =
+      (qwp [root] els).flatMap fun x => if x.2.hasBind then [expBind sub x] else [] := by
   simp only [gen]
   exact binds_eq sub els [root]
 
@@ -329,7 +330,12 @@ theorem trigger_setvalue (dyn : Q → Bool) (sub : Path → Str → Str) (root :
       · rfl
   · intro b hb hp
     rw [calculate_omitted_with_trigger] at hb
-    obtain ⟨x, hx, rfl⟩ := List.mem_map.1 hb
+    obtain ⟨x, hx, hbx⟩ := List.mem_flatMap.1 hb
+    have hbe : b = expBind sub x := by
+      split at hbx
+      · simpa using hbx
+      · simp at hbx
+    subst hbe
     have hxp : pathOf (qPaths [root] els) x.2.name = x.1 := pathOf_question els [root] x hx hn
     have hname : x.2.name = q.name :=
       pathOf_inj els [root] x (pq, q) hx hq (by rw [hxp, hpq]; exact hp)
